@@ -212,6 +212,63 @@ def tcp_round(port, stream, cut, how):
 HEADER = "From SG Require Import Base.Prelude Base.Kinds Spec.E37Session Model.Endpoint Run.C09Run.\nOpen Scope Z_scope.\n"
 
 
+def pending_sends_round(n_senders, cut_stream, cut):
+    """The link dies while application threads have blocks in the send queue: the first write hangs until the peer is gone, every
+    write fails from then on, the peer closes after `cut` bytes of a valid stream.  The disconnect handling must finish."""
+    import threading
+    import time
+    from secsgem.hsms.header import HsmsHeader, HsmsSType
+    from secsgem.hsms.message import HsmsMessage
+    r = protorig.HsmsRig(active=False)
+    obs = {"senders": n_senders, "cut_at_byte": cut}
+    try:
+        if not r.connect():
+            raise RuntimeError("rig did not settle after connect")
+        r.feed(frame_of(1, 1))  # Select.req
+        r.settle()
+        gate, calls, results = threading.Event(), [], []
+
+        def dying(data):
+            calls.append(len(data))
+            if len(calls) == 1:
+                gate.wait(10)
+            return False
+
+        r.conn.send_data = dying
+
+        def send(i):
+            results.append((i, r.proto.send_message(HsmsMessage(HsmsHeader(100 + i, 0, stream=1, function=1, s_type=HsmsSType.DATA_MESSAGE), b""))))
+
+        threads = [threading.Thread(target=send, args=(i,), daemon=True) for i in range(n_senders)]
+        threads[0].start()
+        deadline = time.time() + 5
+        while not calls and time.time() < deadline:
+            time.sleep(0.01)
+        for t in threads[1:]:
+            t.start()
+        time.sleep(0.2)
+        stream = b"".join(cut_stream)[:cut]
+        if stream:
+            r.conn.feed(stream)
+        closer = threading.Thread(target=r.conn.peer_close, daemon=True)
+        gate.set()
+        time.sleep(0.1)
+        closer.start()
+        closer.join(10)
+        for t in threads:
+            t.join(5)
+        obs["disconnect_handling_finished"] = not closer.is_alive()
+        obs["senders_returned"] = sum(1 for t in threads if not t.is_alive())
+        obs["not_connected"] = "NOT_CONNECTED" in str(r.proto._connection_state.current)
+        obs["send_queue_empty"] = r.proto._send_queue.empty()
+    finally:
+        try:
+            r.stop()
+        except Exception:  # noqa: BLE001
+            pass
+    return obs
+
+
 def evaluate(lits, prefix, shard=80):
     shards, maps = [], []
     idx = list(range(len(lits)))
@@ -275,6 +332,19 @@ def run(tier, replay=None):
         c = cases[i]
         report.violation({"kind": "counterexample", "what": SPEC_CODES.get(sc, str(sc)), "stream_hex": [f.hex() for f in c[1]], "cut_at_byte": c[2], "selected_before": c[3],
                           "ended_by": c[4], "observed_case": lits[i][:3000], "model_code": m, "broken_obligation": proof.get("broken")}, True, tag=f"spec{sc}")
+    # the link dies while application threads have blocks queued (their writes fail): the disconnect handling still finishes
+    pending_obs, pwedged = [], []
+    pst = streams(rnd)[0]
+    for n_senders, cut in ([(1, 0), (3, 0), (3, 5), (4, 17)] if tier == "quick" else [(n, c) for n in (1, 2, 3, 4, 6) for c in (0, 3, 5, 14, 17, 30)]):
+        obs = common.guarded(lambda n=n_senders, c=cut: pending_sends_round(n, pst, c), f"{n_senders} application threads sending while the link dies, peer closes after {cut} bytes", pwedged, 60.0)
+        if obs is None:
+            continue
+        pending_obs.append(obs)
+        if not (obs["disconnect_handling_finished"] and obs["senders_returned"] == obs["senders"] and obs["not_connected"] and obs["send_queue_empty"]):
+            report.violation({"kind": "counterexample", "what": "with sends pending while the link died, the endpoint did not finish its disconnect handling / a sender never returned / blocks stayed queued",
+                              "stream_hex": [f.hex() for f in pst], **obs}, True, tag="pending")
+            break
+    common.report_wedged(report, pwedged, proof)
     # the same over real sockets (TcpServerConnection on the loopback interface)
     tcp_obs = []
     st = streams(rnd)[0]
@@ -309,8 +379,10 @@ def run(tier, replay=None):
     cov["distinct_nontrivial"] = len(set(lits))
     cov["rule"] = ("three valid inbound streams (control and data messages, 35-70 bytes) cut at every byte offset (thorough) or at the first/last 16 offsets and a sample (quick), in "
                    "NOT SELECTED and SELECTED, ended by peer close or by disable(), each library call under a deadline; observed: messages dispatched from the prefix, state, receive buffer, "
-                   "live receiver/dispatcher threads and send queue after the end, then a new connection with Select.req; plus the same over TcpServerConnection and a real loopback socket")
+                   "live receiver/dispatcher threads and send queue after the end, then a new connection with Select.req; plus the same over TcpServerConnection and a real loopback socket; "
+                   "plus 1-6 application threads with blocks in the send queue whose writes fail while the peer closes (disconnect handling finishes, every sender returns, queue empty)")
     cov["correspondence"] = {k: v for k, v in stats.items() if k != "eval_errors"}
+    cov["pending_sends_rounds"] = pending_obs
     cov["tcp_rounds"] = {"count": len(tcp_obs), "max_disable_seconds": max([o.get("disable_seconds", 0) for o in tcp_obs] + [o.get("final_disable_seconds", 0) for o in tcp_obs] + [0])}
     cov["distribution"] = {"streams": dict(Counter(c[0] for c in cases)), "ended_by": dict(Counter(c[4] for c in cases)), "selected": dict(Counter(str(c[3]) for c in cases))}
     cov["samples"] = [f"stream {c[0]} cut {c[2]} selected={c[3]} {c[4]}" for c in cases[:: max(1, len(cases) // 6)][:6]]
